@@ -580,7 +580,11 @@ func ruleCC3(pkgs ...string) Rule {
 
 // CC4/CC5: channel discipline and atomic consistency.
 func ruleCC4(pkgs ...string) Rule {
-	return Rule{ID: "CC4", Kind: "must", Floor: 3,
+	floor := 3
+	if len(pkgs) == 1 && pkgs[0] == "interp" {
+		floor = 2 // the arithmetic lexer has one send and one close
+	}
+	return Rule{ID: "CC4", Kind: "must", Floor: floor,
 		Doc: "the lexer's sends are arms of a select that also receives from the cancel channel; parser-side sends have a default arm; close(cancel) happens only under the mutex inside a select/default test of the same channel; a variable touched through sync/atomic anywhere is touched that way everywhere (CC5)",
 		Run: func(c *Ctx, rr *core.RuleResult) {
 			for _, pkg := range pkgs {
